@@ -591,6 +591,116 @@ def explore(ctx, env, nprog):
                 return
 
 
+# ------------------------------------------------------------------ first use of the store by several threads at once
+def _outer_store_class(store):
+    if store == 'shared':
+        from fim.graph.networkx_property_graph import NetworkXGraphStorage as O, NetworkXGraphImporter as I
+    else:
+        from fim.graph.networkx_property_graph_disjoint import NetworkXGraphStorageDisjoint as O, NetworkXGraphImporterDisjoint as I
+    return O, I
+
+
+def run_first_use_schedule(ctx, env, store, nthreads, plan):
+    """Each thread makes its own importer (the store object behind them is made on first use) and imports one graph; the
+    process has not used the store before.  Yield points: the lines of the store constructors only (the locks of a store made
+    inside the run are not the harness's, so nothing is pre-empted while one of them is held); a lock the store classes or
+    their modules keep for the construction itself is replaced by a scheduler-aware one."""
+    import sys
+    import threading
+    from vlib import lockmon
+    O, I = _outer_store_class(store)
+    cls = env.imps[store][1]
+    saved = O.storage_instance
+    locktypes = (type(threading.Lock()), type(threading.RLock()))
+    swapped = []
+    s = sched.Scheduler(plan=plan)
+    for holder in (O, sys.modules[O.__module__]):
+        for k, v in list(vars(holder).items()):
+            if isinstance(v, locktypes):
+                swapped.append((holder, k, v))
+                setattr(holder, k, lockmon.MonitoredLock(f'{store}-construction', s))
+    O.storage_instance = None
+    descs = [small(__import__('random').Random(40 + t), 2, prefix=f'u{t}n') for t in range(nthreads)]
+
+    def body(t):
+        def run():
+            imp = I()
+            imp.import_graph_from_string(graph_string=graphml_of(descs[t]), graph_id=f'U{t}')
+        return run
+
+    def on_line(code, line):
+        if code.co_qualname.endswith('__init__') and 'GraphStorage' in code.co_qualname:
+            return s.on_line(code, line)
+    sched.activate(store_files(), on_line)
+    try:
+        finished = s.run({f'T{t}': body(t) for t in range(nthreads)})
+        sched.deactivate()
+        lost = {}
+        if finished and not s.abort:
+            probe = I()
+            for t in range(nthreads):
+                g = cls(graph_id=f'U{t}', importer=probe)
+                have = set(g.list_all_node_ids()) if g.graph_exists() else None
+                want = {x['id'] for x in descs[t]['nodes']}
+                if have != want:
+                    lost[f'U{t}'] = {'expected': sorted(want), 'found': None if have is None else sorted(have)}
+    finally:
+        sched.deactivate()
+        O.storage_instance = saved
+        for holder, k, v in swapped:
+            setattr(holder, k, v)
+    return s, finished, lost
+
+
+def judge_first_use(ctx, store, nthreads, plan, s, finished, lost):
+    w = {'mode': 'first-use', 'store': store, 'threads': nthreads, 'plan': {str(k): v for k, v in plan.items()}}
+    ctx.count('first-use:schedules')
+    ctx.seen(['first-use', store, nthreads, sorted(plan.items())], True)
+    if not finished:
+        ctx.mark_inconclusive('a first-use run hit the 60 s watchdog')
+        return
+    if s.deadlock:
+        ctx.violation(f'C20/{store}-first-use-deadlock', 'no interleaving leaves a thread blocked forever', w)
+        return
+    if s.errors:
+        ctx.violation(f'C20/{store}-first-use-raises', 'importing through an importer of one\'s own works whoever came first',
+                      dict(w, errors=s.errors))
+        return
+    if s.switches:
+        ctx.count('first-use:preempted')
+    if lost:
+        ctx.violation(f'C20/{store}-first-use-loses-a-graph', 'threads that each make an importer and import a graph at the same '
+                      'time: every graph is in the store afterwards with the nodes imported', dict(w, graphs=lost))
+
+
+def explore_first_use(ctx, env):
+    for store in ('shared', 'disjoint'):
+        for nthreads in (2, 3):
+            s0, fin, lost = run_first_use_schedule(ctx, env, store, nthreads, {})
+            judge_first_use(ctx, store, nthreads, {}, s0, fin, lost)
+            cps = list(s0.choice_points)
+            ctx.count('first-use:yield-points', s0.step)
+            done1 = []
+            for step, cur, others in cps:
+                for to in others:
+                    plan = {step: to}
+                    s1, fin, lost = run_first_use_schedule(ctx, env, store, nthreads, plan)
+                    judge_first_use(ctx, store, nthreads, plan, s1, fin, lost)
+                    done1.append((plan, s1))
+            # a second pre-emption after the first, every placement (the constructors are a few lines)
+            for plan, s1 in done1:
+                for step, cur, others in s1.choice_points:
+                    if step <= max(plan):
+                        continue
+                    for to in others:
+                        p2 = dict(plan)
+                        p2[step] = to
+                        s2, fin, lost = run_first_use_schedule(ctx, env, store, nthreads, p2)
+                        judge_first_use(ctx, store, nthreads, p2, s2, fin, lost)
+                if ctx.out_of_time():
+                    return
+
+
 def _run_workload(ctx):
     env = Env(ctx)
     try:
@@ -604,6 +714,8 @@ def _run_workload(ctx):
         try:
             run_sequential(ctx, env, ctx.pick(150, 1500))
             run_failpoints(ctx, env)
+            if ctx.shard == 0:
+                explore_first_use(ctx, env)
             explore(ctx, env, ctx.pick(6, 60))
             ctx.count('sched:refused-imports-inside-threads', REFUSED_IN_THREAD[0])
         finally:
@@ -621,6 +733,10 @@ def replay(ctx, case):
             plan = {int(k): v for k, v in w['plan'].items()}
             s, fin, base, blanks = run_schedule(ctx, env, w['store'], w['programs'], plan=plan)
             judge_schedule(ctx, env, w['store'], w['programs'], s, fin, base, blanks, w)
+        elif w.get('mode') == 'first-use':
+            plan = {int(k): v for k, v in w['plan'].items()}
+            s, fin, lost = run_first_use_schedule(ctx, env, w['store'], w['threads'], plan)
+            judge_first_use(ctx, w['store'], w['threads'], plan, s, fin, lost)
         elif w.get('mode') == 'sequential':
             imp, cls = env.imps[w['store']]
             env.reset()
